@@ -176,7 +176,7 @@ theorem alpha_aliases_single_field_subscriptions (A : Al) (ρ : String → Strin
   rw [rule_single_field_subscriptions_iff, rule_single_field_subscriptions_iff]
   exact single_field_subscriptions_spec_al A ρ hA hρ d
 
-/-- **alpha_aliases for 25 of the 26 rules** (all but OverlappingFieldsCanBeMerged) -/
+/-- **alpha_aliases for 25 of the 26 rules** (all but OverlappingFieldsCanBeMerged) [ALONE-RUN statement, rule by rule: each rule visitor in a chain of its own; for the verdict of the chain `validate_ast` runs see `Props/C06_chain.lean: chainM_six_transformations`.] -/
 theorem alpha_aliases_all25_partial (A : Al) (ρ : String → String) (hA : A.Renames ρ) (hρ : ∀ a b, ρ a = ρ b → a = b)
     (s : SchemaD) (fx : Fixes) (d : Doc) (r : Rule) (hr : r ≠ .overlappingFieldsCanBeMerged) :
     Silent s fx r (A.doc d) ↔ Silent s fx r d := by
